@@ -1,5 +1,13 @@
 """C12 — error aggregation (ers, erc). Cases are error-construction terms; see harness/c12.go and
-lean/FunModel/Drv/C12.lean for the two interpreters."""
+lean/FunModel/Drv/C12.lean for the two interpreters.
+
+Besides the differential run the model is tied to the source by T-gen: every run, tools/go2lean (errshapes.go)
+rewrites lean/FunGen/ErrShapes.lean from ers/merged.go, ers/ers.go, ers/panic.go, internal/wrap.go (the type switches
+of Stack.Push / internal.Unwind / ParsePanic / Ok as ordered tables, Stack.Resolve/Len/Ok/Unwrap/Is/As and the default
+clause of Push statement by statement, the Add/Join/Wrap glue) and FunProps/C12Gen.lean (built and audited with
+FunProps/C12.lean because its name starts with C12) proves the hand-written model equal to it. Source outside the
+translator's subset makes FunGen/ErrShapes.lean a non-compiling file: C12 then reports a broken tie
+(`no-failing-input-found` unless the differential run finds an input), no other property is affected."""
 import re
 from . import common as C
 
@@ -11,7 +19,12 @@ RULE = ("random error trees (depth<=6 quick / 8 thorough, fan-out<=4, ~25% nil e
         "ers.ParsePanic}; plus collector cases (4 goroutines adding a partition of the terms). A case is "
         "non-trivial when its result is non-nil and at least one container node was flattened; distinct = distinct case lines.")
 TRUSTED = ["errors.Is/errors.As of the Go standard library are modelled (Err.is / Err.as), not verified",
-           "fmt.Errorf(%w), errors.Join produce wrap / multi nodes"]
+           "fmt.Errorf(%w), errors.Join produce wrap / multi nodes",
+           "T-gen (FunProps/C12Gen.lean): tools/go2lean/errshapes.go (go/parser; recognition of the clause bodies, the "
+           "normalised-syntax-tree comparison of sparse/buffer/grow/Stack.Unwind) and the vocabulary it targets, "
+           "lean/FunModel/ErrShapes.lean: Go's first-match rule for type switches (Switch.select), the table node kind -> "
+           "dynamic type (Dyn.ofErr), the meaning of each arm on the model's trees (runPush, runUnwind, runRet, runOk) and "
+           "the immutable cell-chain reading of the *Stack nodes (ofItems)"]
 ASSUMPTIONS = ["targets of errors.Is are leaf/typed/wrap/multi nodes, never a *Stack",
                "Collector.Add holds the mutex for the whole Push (checked separately by C13)"]
 
